@@ -1,8 +1,10 @@
 SPECIFICATION Spec
 CONSTANTS MaxVar = 4
+  Depth = 0
   Discipline = TRUE
 INVARIANT InRange
 PROPERTY Monotone
 PROPERTY Fresh
 CONSTRAINT Bounded
+VIEW ModelView
 CHECK_DEADLOCK FALSE
